@@ -153,6 +153,7 @@ type Enc struct {
 	applyCells      map[string]*Val // captured-variable cells while a closure's contract is applied at a call site
 	recGhost        map[string]bool
 	trustedClauses  []string        // "trusted ensures" clauses of the function under verification (not checked)
+	hiddenIdx       map[string][]string // heap key -> index terms havocked silently at call sites (hidden modifies of callees)
 	closedFacts     map[string]bool // universally closed side facts already emitted (bound names normalised)
 	axiomLines      []axiomLine
 	bseqSeen        map[string]bool
